@@ -23,14 +23,15 @@ LEVEL_NOTE = ("Theorems are about the Gallina model Schema/SdlBuild.v of sdl/sch
 RULE = ("type-system documents from harness/gen_sdl.py: all six kinds, wrappers, defaults of every input "
         "kind, descriptions, deprecations, custom directives, schema definitions, members split "
         "arbitrarily over extend blocks, blocks permuted, recursive input types, unreachable types, "
-        "ignore_extensions on/off, additional_types; plus labelled invalid documents (one broken rule); "
+        "ignore_extensions on/off, additional_types; plus labelled invalid documents (one broken rule); plus "
+        "call histories: 2-4 build_schema / extend_schema calls sharing code-built additional types of all six "
+        "kinds, with documents that extend them (every extension kind) or not, each call compared with the "
+        "model on that document and the pristine types, and the caller's type objects dumped after each call; "
         "non-trivial = the document has an extension, a default value or an additional type, or is invalid; "
         "distinct = distinct (text, flags, additional)")
 
 KNOWN_LABELS = {
     # label -> finding key (see known_findings.d/C11.json)
-    "implements-object": "implements-non-interface",
-    "implements-nonfields": "implements-non-interface",
     "input-default-self-cycle": "input-default-self-cycle",
     "default-vs-extension": "default-vs-extension",
 }
@@ -83,7 +84,7 @@ def corpus():
     out.append(_case("type Query { a: Int }\nextend type Foo { a: Int }", "ext-undefined", expect=2))
     out.append(_case("type Query { a: Int }\nextend type Foo { a: Int }", "valid", ignore=True))
     out.append(_case("type Query { f(e: O = 1): Int }\ntype O { x: Int }", "output-in-input-position-default", expect=1))
-    # row 29 (schema validation side, C13's fix): wrong kind in implements
+    # row 29 (repaired by C13-02 = 1a49f1d in schema/validation.py): wrong kind in implements
     out.append(_case("scalar S\ntype Query implements S { a: Int }", "implements-nonfields", expect=3))
     out.append(_case("type O { a: Int }\ntype Query implements O { a: Int }", "implements-object", expect=3))
     # open findings
@@ -99,6 +100,72 @@ def corpus():
     out.append(_case("type Query { c(x: Color = RED, y: [Color!] = [GREEN, BLUE], p: Paging = {sortBy: \"a\"}): Date }\n"
                      "enum Color { WHATEVER }", "valid", additional=[ADD_ENUM, ADD_SCALAR, ADD_INPUT]))
     out.append(_case("type Query { f(e: I = {x: 1, x: 2, zzz: 3}): Int }\ninput I { x: Int, y: Int = 5, z: [Int] = 7 }", "valid"))
+    out.extend(_history_corpus())
+    return out
+
+
+# ---- call histories over shared additional_types objects ------------------
+ADD_NAMED = {"kind": "interface", "name": "Named", "fields": [{"name": "fullName", "type": "String"}]}
+HIST_ADDITIONAL = [ADD_ENUM, ADD_SCALAR, ADD_INPUT, ADD_IFACE, ADD_OBJECT, ADD_UNION]
+HIST_BASE = ("type Query { u: User, m: Media, n: Node, d: Date\n"
+             "  p(paging: Paging = {sortBy: [\"a\"]}, c: Color = RED, cs: [Color!] = [GREEN]): Int }\n"
+             "type Other { id: ID!, c: Color }")
+HIST_EXTENSIONS = [
+    ("enum", "extend enum Color { PURPLE @deprecated(reason: \"no\") }"),
+    ("enum2", "extend enum Color @tag { PINK\n  TEAL }"),
+    ("object", "extend type User { extra(a: Color = BLUE): Int }"),
+    ("object-iface", "extend type Other implements Node"),
+    ("interface", "extend interface Node { created: Date }\nextend type User { created: Date }"),
+    ("union", "extend union Media = Other"),
+    ("input", "extend input Paging { offset: Int = 0, more: Paging }"),
+    ("scalar", "extend scalar Date @tag(name: \"d\")"),
+    ("query", "extend type Query { z: [Media] }"),
+    ("schema", "extend schema @tag"),
+]
+
+
+def _hist_step(rng, names):
+    exts = [t for n, t in HIST_EXTENSIONS if n in names]
+    rng.shuffle(exts)
+    c = rng.random()
+    if c < 0.25 and exts:
+        # extend_schema on the schema built without extensions
+        return {"op": "extend", "base": HIST_BASE, "sdl": "\n".join(exts)}
+    blocks = [HIST_BASE] + exts
+    if rng.random() < 0.5:
+        rng.shuffle(blocks)
+    return {"op": "build", "sdl": "\n".join(blocks), "ignore_extensions": rng.random() < 0.15}
+
+
+def _history_case(rng, n_steps=None, label="history"):
+    steps = []
+    all_names = [n for n, _ in HIST_EXTENSIONS]
+    for i in range(n_steps or rng.randint(2, 4)):
+        c = rng.random()
+        if c < 0.25:
+            names = []
+        elif c < 0.5 and steps:
+            names = steps[-1]["_names"]            # the same document again
+        else:
+            names = rng.sample(all_names, rng.randint(1, 4))
+        st = _hist_step(rng, names)
+        st["_names"] = names
+        steps.append(st)
+    for st in steps:
+        st.pop("_names")
+    return {"additional": HIST_ADDITIONAL, "steps": steps, "label": label}
+
+
+def _history_corpus():
+    out = []
+    ext_enum = HIST_BASE + "\n" + HIST_EXTENSIONS[0][1]
+    b = lambda sdl, ign=False: {"op": "build", "sdl": sdl, "ignore_extensions": ign}  # noqa: E731
+    # seeded C11-a: extend enum appended in place to the caller's EnumType
+    out.append({"additional": HIST_ADDITIONAL, "label": "history-enum", "steps": [b(ext_enum), b(ext_enum), b(HIST_BASE)]})
+    for name, text in HIST_EXTENSIONS:
+        doc = HIST_BASE + "\n" + text
+        out.append({"additional": HIST_ADDITIONAL, "label": "history-" + name,
+                    "steps": [b(doc), b(HIST_BASE), {"op": "extend", "base": HIST_BASE, "sdl": text}, b(doc)]})
     return out
 
 
@@ -147,6 +214,8 @@ def generate(rng, tier):
             # checked through the model (both must give equivalent schemas)
             text2, _ = gen_sdl.render(spec, rng)
             cases.append(_case(text2, "valid", additional=recipe))
+    for _ in range(30 if tier == "quick" else 400):
+        cases.append(_history_case(rng))
     tries = 0
     made = 0
     while made < n_invalid and tries < n_invalid * 4:
@@ -180,37 +249,54 @@ def _obs_term(obs):
     return "ObsOther"
 
 
-def _input_term(case, obs):
-    doc = parse(case["sdl"], allow_type_system=True)
-    return "(%s, %s, %s)" % (ser.cdoc(doc), ser.cbool(case["ignore_extensions"]),
-                             ser.clist(obs.get("additional", []), ser_sdl.cjtype))
+def _doc_term(sdl, base=None):
+    doc = parse(sdl, allow_type_system=True)
+    if base is None:
+        return ser.cdoc(doc)
+    # extend_schema(build_schema(base, ignore_extensions=True), doc): the definitions of the
+    # base document followed by the nodes of the extension document
+    bdoc = parse(base, allow_type_system=True)
+    from py_gql.lang import ast as A
+    defs = [d for d in bdoc.definitions if not isinstance(d, A.TypeSystemExtension)] + list(doc.definitions)
+    return "(Doc %s NL)" % ser.clist(defs, ser.cdef)
+
+
+def _steps_of(case, obs):
+    """-> [(input term, observable)] : one pair for a plain case, one per call of a history"""
+    add = ser.clist(obs.get("additional", []), ser_sdl.cjtype)
+    if "steps" in case:
+        out = []
+        for st, o in zip(case["steps"], obs["steps"]):
+            term = "(%s, %s, %s)" % (_doc_term(st["sdl"], st.get("base")),
+                                     ser.cbool(bool(st.get("ignore_extensions"))), add)
+            out.append((term, o))
+        return out
+    return [("(%s, %s, %s)" % (_doc_term(case["sdl"]), ser.cbool(case["ignore_extensions"]), add), obs)]
 
 
 def to_coq(case, obs):
-    return "(%s, %s)" % (_input_term(case, obs), _obs_term(obs))
+    return ser.clist(_steps_of(case, obs), lambda p: "(%s, %s)" % (p[0], _obs_term(p[1])))
 
 
 def show_expr(case, obs):
-    return "show_C11 %s" % _input_term(case, obs)
+    return "show_C11 %s" % ser.clist(_steps_of(case, obs), lambda p: p[0])
 
 
 def nontrivial(case, obs):
+    if "steps" in case:
+        return True
     t = case["sdl"]
     return ("extend " in t or " = " in t or bool(case["additional"]) or case["label"] != "valid")
 
 
 def canonical(case):
+    if "steps" in case:
+        return repr(case["steps"])
     return (case["sdl"], case["ignore_extensions"], repr(case["additional"]))
 
 
 def _finding_key(case, obs):
     key = KNOWN_LABELS.get(case["label"])
-    if key == "implements-non-interface":
-        # the validator does not check the kind of an implemented type: AttributeError for
-        # kinds without output fields, silently accepted for object types
-        if "schema" in obs or (obs.get("exc") == "other" and obs.get("type") in ("AttributeError", "TypeError")):
-            return key
-        return None
     if key == "input-default-self-cycle":
         return key if obs.get("exc") in ("recursion", "timeout", "died") else None
     if key == "default-vs-extension":
@@ -222,6 +308,8 @@ def _finding_key(case, obs):
 
 
 def classify(case, obs):
+    if "steps" in case:
+        return "every-call-contains-exactly-what-its-document-declares (history)", None
     key = _finding_key(case, obs)
     if "schema" in obs:
         return "contains-exactly-the-declared-schema", key
@@ -232,6 +320,16 @@ def classify(case, obs):
 
 def direct_checks(case, obs):
     out = []
+    if "steps" in case:
+        if obs.get("mutated"):
+            out.append(("additional-types-unchanged: the caller's type objects differ after call(s) %s"
+                        % obs["mutated"], None))
+        for n, o in enumerate(obs["steps"]):
+            if o.get("exc") in ("other", "graphql-other", "recursion", "timeout", "died"):
+                out.append(("no-unrelated-exception: call %d %s" % (n, o.get("type", o.get("exc"))), None))
+            if o.get("lost_resolvers"):
+                out.append(("extension-keeps-resolvers: call %d %s" % (n, ",".join(o["lost_resolvers"][:4])), None))
+        return out
     e = obs.get("exc")
     if e in ("other", "graphql-other"):
         out.append(("no-unrelated-exception: %s" % obs.get("type"), _finding_key(case, obs)))
@@ -252,6 +350,18 @@ def shrink(case, is_bad):
     """drop whole blocks while the failure persists"""
     if os.environ.get("VERIF_NO_SHRINK"):
         return case
+    if "steps" in case:
+        steps = case["steps"]
+        changed = True
+        while changed and len(steps) > 1:
+            changed = False
+            for i in range(len(steps)):
+                cand = dict(case, steps=steps[:i] + steps[i + 1:])
+                if is_bad(cand):
+                    steps = cand["steps"]
+                    changed = True
+                    break
+        return dict(case, steps=steps)
     blocks = case["sdl"].rstrip("\n").split("\n\n")
     changed = True
     while changed and len(blocks) > 1:
@@ -271,7 +381,10 @@ def shrink(case, is_bad):
 
 def extra_evidence(cases, obss):
     labels, outcomes = {}, {}
-    for c, o in zip(cases, obss):
+    hist = [c for c in cases if "steps" in c]
+    pairs = [(c, o) for c, o in zip(cases, obss) if "steps" not in c]
+    cases = [c for c, _ in pairs]
+    for c, o in pairs:
         labels[c["label"]] = labels.get(c["label"], 0) + 1
         k = "schema" if "schema" in o else ("rejected-%s" % o.get("kind") if o.get("exc") == "rejected" else o.get("exc"))
         outcomes[k] = outcomes.get(k, 0) + 1
@@ -283,4 +396,7 @@ def extra_evidence(cases, obss):
         "ignore_extensions": sum(1 for c in cases if c["ignore_extensions"]),
         "with_input_types": sum(1 for c in cases if "input " in c["sdl"]),
         "with_schema_definition": sum(1 for c in cases if "schema" in c["sdl"]),
+        "history_cases": len(hist),
+        "history_calls": sum(len(c["steps"]) for c in hist),
+        "history_extend_schema_calls": sum(1 for c in hist for st in c["steps"] if st["op"] == "extend"),
     }}
